@@ -246,6 +246,50 @@ def refusal_cases(ctx):
                 ctx.fail(sig, '%s += %s gave %s instead of NotImplementedError' % (name, name, res), case)
             elif changed:
                 ctx.fail('refusal-changes-state:' + name, 'state changed although the merge was refused', case)
+    # "its own kind" includes the library's own specialisations of a class (MedianEstimator IS a QuantileEstimator, …)
+    for name, special in [('QuantileEstimator', 'MedianEstimator'), ('CDFEstimator', 'MedianEstimator'), ('CDFEstimator', 'QuantileEstimator'),
+                          ('BinSorter', 'DynamicBinSorter')]:
+        for t in range(2):
+            ka, kb = ctx.rng.choice([0, 4, 12]), ctx.rng.choice([1, 6, 14])
+            a = make_refuser(A, name, ctx.rng, ka)
+            b = make_refuser(A, special, ctx.rng, kb)
+            if not isinstance(b, type(a)):
+                continue
+            sa, sb = snapshot(a), snapshot(b)
+            try:
+                a.accumulate(b)
+                res = 'ok'
+            except Exception as e:  # noqa
+                res = '!' + type(e).__name__
+            changed = (snapshot(a) != sa) or (snapshot(b) != sb)
+            case = dict(refuse=name, operand=special, na=ka, nb=kb)
+            ctx.case(('refuse-special', name, special, ka, kb, t), True)
+            ctx.count('refusal:%s+=%s' % (name, special))
+            if res != '!NotImplementedError':
+                ctx.fail('refusal-wrong-error:%s:%s' % (name, res), '%s += %s gave %s instead of NotImplementedError' % (name, special, res), case)
+            elif changed:
+                ctx.fail('refusal-changes-state:' + name, 'state changed although the merge was refused', case)
+    # frames without elements (an empty region of interest): shape (0,) or (3, 0) — streams of them merge like any others
+    for cls in ('Mean', 'Variance', 'Covariance', 'Minimum', 'Maximum'):
+        for shape in ((0,), (3, 0)):
+            if cls == 'Covariance' and shape != (0,):
+                continue
+            case = dict(zero_size_frames=True, cls=cls, shape=list(shape))
+            ctx.case(('zero-size', cls, shape), True, sample=case)
+            ctx.count('zero_size_frames')
+            try:
+                whole, a, b, e = getattr(A, cls)(), getattr(A, cls)(), getattr(A, cls)(), getattr(A, cls)()
+                for i in range(3):
+                    whole.accumulate(np.zeros(shape))
+                    (a if i < 2 else b).accumulate(np.zeros(shape))
+                a.accumulate(b)
+                a.accumulate(e)
+                ok = a.n == whole.n == 3 and np.shape(a.value if cls != 'Covariance' else a.rms) == np.shape(whole.value if cls != 'Covariance' else whole.rms)
+                why = 'n=%s/%s' % (a.n, whole.n)
+            except Exception as ex:  # noqa
+                ok, why = False, 'raised %r' % (ex,)
+            if not ok:
+                ctx.fail('merge-zero-size-frames:' + cls, '%s over frames of shape %s, merged in two chunks plus an empty operand: %s' % (cls, shape, why), case)
     # mergeable kinds must say ok in the model (their behaviour is covered above / in C16)
     for name in MERGERS:
         if model[name] != 'ok merged':
